@@ -31,7 +31,7 @@ def recipes(c, nd, r):
     return [['knot', 'mid', 'knot'][:nd], ['mid', 'knot', 'mid'][:nd]]
 
 
-def build_world(root, cube, K, ulo, uhi, nd, c, fmt, memmap, r):
+def build_world(root, cube, K, ulo, uhi, nd, c, fmt, memmap, r, distance_unit='kpc'):
     from astropy import units as u
     from sedfitter.convolved_fluxes import ConvolvedFluxes
     d = tempfile.mkdtemp(dir=root)
@@ -71,7 +71,8 @@ def build_world(root, cube, K, ulo, uhi, nd, c, fmt, memmap, r):
     if fmt == 'cube':
         pw.cube_object(names, [1.0, 2.0], [100.0, 200.0], lambda m, a, w: 1.0 + m + a + w, lambda m, a, w: 0.1, 'desc').write(os.path.join(d, 'flux.fits'))
     law = fw.make_extinction(K, wavs)
-    ft = fw.make_fitter(d, ['f0', 'f1'], law, ulo, uhi, distance_range=[dist[0], dist[-1]], apertures=THETA, use_memmap=memmap)
+    ft = fw.make_fitter(d, ['f0', 'f1'], law, ulo, uhi, distance_range=[dist[0], dist[-1]], apertures=THETA, use_memmap=memmap,
+                        distance_unit=distance_unit)
     return d, ft, dist, names
 
 
@@ -84,14 +85,15 @@ def replay_group(key, behs, root, seed, pid='C02', formats=(('perfile', False), 
     ratio = 10 if (c == 1 or rng.random() < 0.5) else 2
     for fmt, memmap in formats:
         try:
-            d, ft, dist, names = build_world(root, b0['cube'], b0['K'], b0['ulo'], b0['uhi'], nd, c, fmt, memmap, ratio)
+            dunit = rng.choice(['kpc', 'pc', 'kpc', 'lyr'])      # the range may be given in any length unit; the scale is log10(d / kpc)
+            d, ft, dist, names = build_world(root, b0['cube'], b0['K'], b0['ulo'], b0['uhi'], nd, c, fmt, memmap, ratio, distance_unit=dunit)
         except Exception as e:
             col.violation('%s:load_raised:%s:%s' % (pid, fmt, type(e).__name__), 'building a fitter on a %s package (memmap=%s, %d distances ratio %d) raised %r' % (fmt, memmap, nd, ratio, e),
                           {'cfg': b0['cfg'], 'cube': b0['cube']})
             continue
         tol = 3e-6 if memmap else 1e-9
         try:
-            desc0 = {'cfg': b0['cfg'], 'format': fmt, 'memmap': memmap, 'distances_kpc': dist, 'theta_arcsec': THETA, 'cube_quarter_dex': b0['cube']}
+            desc0 = {'cfg': b0['cfg'], 'format': fmt, 'memmap': memmap, 'distance_range_unit': dunit, 'distances_kpc': dist, 'theta_arcsec': THETA, 'cube_quarter_dex': b0['cube']}
             # ---- stage A: the grid and the cube
             od = getattr(ft.models, 'distances', None)
             ofl = getattr(ft.models, 'fluxes', None)
